@@ -248,6 +248,8 @@ type req4abs struct {
 	mt     int // 1 discover, 3 request
 	hlen   int
 	gi     bool
+	// prlzero: option 55 is present with length 0 (a list that names nothing, in its shortest wire form)
+	prlzero bool
 }
 
 type pre4abs struct {
@@ -276,7 +278,9 @@ func buildPlug4(a req4abs, p pre4abs, own net.IP, r *rand.Rand) (*dhcpv4.DHCPv4,
 	req.ClientHWAddr = make(net.HardwareAddr, a.hlen)
 	r.Read(req.ClientHWAddr)
 	req.UpdateOption(dhcpv4.OptMessageType(dhcpv4.MessageType(a.mt)))
-	if a.prlhas {
+	if a.prlhas && a.prlzero {
+		req.Options[uint8(dhcpv4.OptionParameterRequestList)] = []byte{}
+	} else if a.prlhas {
 		codes := []byte{}
 		for _, c := range a.prl {
 			codes = append(codes, byte(c))
@@ -656,6 +660,12 @@ func runPluginOne(t *Trace, pl string, proto int, args []string, reqs string, se
 				}
 			}
 		case "dns", "mtu", "nbp", "ipv6only":
+			if pl == "ipv6only" {
+				// a present list that names nothing, as a zero-length option 55: still no explicit request
+				for _, p := range pres {
+					observe4(t, pl, args, h4, req4abs{prlhas: true, prl: []int{}, prlzero: true, siaddr: "absent", opt54: "absent", mt: 1 + 2*r.Intn(2), hlen: 6}, p, own, r, cfg)
+				}
+			}
 			for i, prl := range prls {
 				for _, p := range pres {
 					observe4(t, pl, args, h4, req4abs{prlhas: i > 0, prl: prl, ac: r.Intn(2) == 0, siaddr: "absent", opt54: "absent", mt: 1 + 2*r.Intn(2), hlen: 6}, p, own, r, cfg)
@@ -746,6 +756,7 @@ func argKinds(dir string) []string {
 	return []string{
 		"10.0.0.1", "2001:db8::1", "::ffff:10.0.0.1", "10.0.0.0/24", "2001:db8::/32", "2001:db8::/60", "2001:d00::/24", "10.0.0.200",
 		"10.0.0.0/24,10.0.0.1", "2001:db8::/32,10.0.0.1", "10.0.0.0/24,2001:db8::1", "10.0.0.0/24,10.0.0.1,extra",
+		"::ffff:10.0.0.0/104,192.168.1.1", "10.0.0.0/24,::ffff:10.0.0.1", "fe80::/10,10.0.0.1",
 		"30s", "-5s", "garbage", "1500", "70000", "-1", "64", "200",
 		"http://boot.example/x.efi", "tftp://10.0.0.2/pxe.0", "%zz://bad url", "ll", "llt", "en", "aa:bb:cc:dd:ee:ff",
 		"255.255.255.0", "255.0.255.0", "0.0.0.0", good, good6, bad, filepath.Join(dir, "missing.txt"), "", "autorefresh", "AutoConfigure",
